@@ -130,6 +130,11 @@ def check(inp, impl, consts):
                 # Confirmable one the server is still retransmitting (then the server cannot but attribute it to the
                 # token); a late Reset of a finished notification of an EARLIER registration says nothing about this one
                 inq0 = prev and any(qn["c"] == c and qn["mid"] == nt["mid"] for qn in prev["Q"])
+                if inq0:
+                    # message ids repeat after the server re-created the session: the datagram in the queue is the most
+                    # recent one with that id, and it is ITS token the Reset is about
+                    nt = next(x for x in reversed(lst) if x["mid"] == nt["mid"])
+                    key = (c, nt["tok"])
                 if key in reg and key not in amb and ((nt["code"] == 69 and nt["k"] >= epoch.get(key, 0)) or inq0):
                     # is this RST one libcoap can still attribute?  (signature of the open finding)
                     inq = prev and any(qn["c"] == c and qn["mid"] == nt["mid"] for qn in prev["Q"])
@@ -198,6 +203,9 @@ def check(inp, impl, consts):
                 if o["obs"] is None:
                     viol.append(("no-observe-option", "event #%d (%s): 2.05 notification to client %d token %s without Observe option" % (k, ev, c, o["tok"])))
                     continue
+                if o["obs"] >= MOD:
+                    viol.append(("observe-range", "event #%d (%s): notification to client %d token %s carries Observe=%d, not a 24-bit value" % (
+                        k, ev, c, o["tok"], o["obs"])))
                 if o["tok"][:2] != "%02x" % (0xA0 + c):
                     viol.append(("foreign-token", "event #%d (%s): notification to client %d carries token %s" % (k, ev, c, o["tok"])))
                 if key in sup:
@@ -245,6 +253,9 @@ def check(inp, impl, consts):
                         if errflag.get(r):
                             deregister(c, o["tok"], r, "error response %d" % o["code"])
             elif o["tag"] == "p":
+                if o["obs"] is not None and o["obs"] >= MOD:
+                    viol.append(("observe-range", "event #%d (%s): response to client %d token %s carries Observe=%d, not a 24-bit value" % (
+                        k, ev, c, o["tok"], o["obs"])))
                 if op == "reg" and o["code"] == 69 and o["obs"] is not None:
                     c_, r, t, q = int(f[1]), int(f[2]), int(f[3]), int(f[4])
                     fresh = key not in reg or r not in reg[key]
